@@ -262,8 +262,10 @@ class IntType:
             return self.real(src)
         if isinstance(src, SymInt):
             return src
-        if isinstance(src, SymFile):
+        if isinstance(src, SymFile) or (hasattr(src, "read") and not isinstance(src, SymBytes)):
             src = src.read(self.size)
+            if isinstance(src, (bytes, bytearray)):
+                return self.real(bytes(src))
         return files.bytes_word(SymBytes.lift(src), 0, self.size, self.endian, self.signed)
 
     def __getattr__(self, k):
